@@ -264,3 +264,53 @@ proof! {
         }
     }
 }
+
+
+proof! {
+    //@ props=C07,C12 tier=quick bounds=[u16;2]-and-Vec<u16>-read-from-the-unknown-length-form-followed-by-one-symbolic-byte:exactly-that-byte-is-left cap=900
+    fn c07_unknown_form_is_consumed_in_full() unwind(8) {
+        use desert_core::{BinaryDeserializer, BinaryInput, DeserializationContext};
+        let xs = elems3::<u16>();
+        let mut b = unknown_form(&xs, 2);
+        let s0 = sym::u8_();
+        b.u8(s0);
+        let mut ctx = DeserializationContext::new(&b.b[..b.n]);
+        match <[u16; 2]>::deserialize(&mut ctx) {
+            Ok(v) => {
+                assert!(v[0] == xs[0] && v[1] == xs[1]);
+                assert!(matches!(ctx.read_u8(), Ok(x) if x == s0), "the array decoder left part of the sequence (its terminator) unread");
+                match ctx.read_u8() { Ok(_) => assert!(false), Err(e) => std::mem::forget(e) }
+            }
+            Err(e) => { std::mem::forget(e); assert!(false); }
+        }
+        std::mem::forget(ctx);
+        let mut ctx = DeserializationContext::new(&b.b[..b.n]);
+        match Vec::<u16>::deserialize(&mut ctx) {
+            Ok(v) => {
+                assert!(v.len() == 2);
+                assert!(matches!(ctx.read_u8(), Ok(x) if x == s0));
+                cover!(true);
+                std::mem::forget(v);
+            }
+            Err(e) => { std::mem::forget(e); assert!(false); }
+        }
+        std::mem::forget(ctx);
+    }
+}
+
+proof! {
+    //@ props=C06,C05,C19 tier=quick bounds=[u16;2]-from-known-length-sequences-of-1-and-3-elements(elements-symbolic):must-be-Err cap=900
+    fn c06_array_count_mismatch() unwind(8) {
+        let xs = elems3::<u16>();
+        let short = known_form(&xs, 1);
+        match desert_core::deserialize::<[u16; 2]>(&short.b[..short.n]) {
+            Ok(v) => { std::mem::forget(v); assert!(false, "an array was produced from fewer elements than its length"); }
+            Err(e) => std::mem::forget(e),
+        }
+        let long = known_form(&xs, 3);
+        match desert_core::deserialize::<[u16; 2]>(&long.b[..long.n]) {
+            Ok(v) => { std::mem::forget(v); assert!(false, "an array was produced from more elements than its length"); }
+            Err(e) => { cover!(true); std::mem::forget(e); }
+        }
+    }
+}
